@@ -6,6 +6,7 @@ import (
 	"fmt"
 	"os"
 	"path/filepath"
+	"slices"
 	"sort"
 	"strings"
 	"testing"
@@ -28,6 +29,7 @@ type traceEvent struct {
 	Eff     []Fault `json:"eff"` // the faults that changed the forwarded bytes
 	Outcome string  `json:"outcome"`
 	Bound   bool    `json:"bound"`
+	Wire    bool    `json:"wire"` // the request on the wire was the normal form of the arguments
 	Note    string  `json:"note"` // slug of the panic message, if any (not read by the spec)
 }
 
@@ -99,10 +101,12 @@ func judge(c Case, o Outcome) (kind, desc string) {
 	switch {
 	case o.Outcome == "panic":
 		return "panic:" + slug(o.Err), "the client function panicked instead of returning an error: " + o.Err
-	case m == "ok" && o.Outcome != "ok":
-		return "honest-failed", "an exchange with an honest host failed: " + o.Err
 	case o.Outcome == "ok" && !o.Bound && !c.Info:
 		return "accepted-unbound", fmt.Sprintf("the client reported success but the result is not bound to the request (ground truth: %v)", o.Detail)
+	case !o.Wire:
+		return "request-not-normal-form", "the request the client put on the wire is not the normal form of the caller's arguments (outcome " + o.Outcome + " " + o.Err + ")"
+	case m == "ok" && o.Outcome != "ok":
+		return "honest-failed", "an exchange with an honest host failed: " + o.Err
 	case m == "err" && o.Outcome == "ok" && !c.Info:
 		return "accepted-must-reject", fmt.Sprintf("the client accepted a response whose result-bearing field was corrupted (ground truth says bound: %v)", o.Detail)
 	}
@@ -137,7 +141,7 @@ func runCases(t *testing.T, in replayIn, res *hx.Result, tw *hx.TraceWriter) {
 		for _, f := range c.Faults {
 			// (a client that returned an error without opening a stream never met the host: the
 			// fault is unseen because of the client, not because the catalogue entry is void)
-			if o.Dialed && len(c.Faults) == 1 && c.Classes[f.String()] == "unbind" && !containsFault(eff, f) {
+			if len(c.Faults) == 1 && c.Classes[f.String()] == "unbind" && slices.Contains(o.Void, f.String()) {
 				res.Count("noop_unbind", 1)
 				res.Note("catalog entry without effect: %s %s", c.Key(), f)
 			}
@@ -155,6 +159,9 @@ func runCases(t *testing.T, in replayIn, res *hx.Result, tw *hx.TraceWriter) {
 			res.Note("slow case (%.0f ms): %s -> %s %s", o.Millis, c.Key(), o.Outcome, o.Err)
 		}
 		res.Count("outcome_"+o.Outcome, 1)
+		if o.Dialed && s.wireOK != nil {
+			res.Count("wire_requests_checked", 1)
+		}
 		res.Count("rpc_"+c.RPC, 1)
 		if len(eff) < len(c.Faults) {
 			res.Count("faults_noop_or_unseen", len(c.Faults)-len(eff))
@@ -172,7 +179,7 @@ func runCases(t *testing.T, in replayIn, res *hx.Result, tw *hx.TraceWriter) {
 			res.Count("abstract_client_differs", 1)
 		}
 		if tw != nil {
-			ev := traceEvent{Op: "Case", RPC: c.RPC, Variant: c.Variant, Faults: c.Faults, Eff: eff, Outcome: o.Outcome, Bound: o.Bound}
+			ev := traceEvent{Op: "Case", RPC: c.RPC, Variant: c.Variant, Faults: c.Faults, Eff: eff, Outcome: o.Outcome, Bound: o.Bound, Wire: o.Wire}
 			if o.Outcome == "panic" {
 				ev.Note = slug(o.Err)
 			}
